@@ -83,12 +83,17 @@ def session(ctx, scenario):
     # the attribute under which the ranking records the candidates' code objects per key
     rrv = recv_name(ranker)
     rparam = [p for p in ranker.params if p != rrv][0]
-    code_attrs = []
+    keyed = {}
     for st in ast.walk(ranker.node):
         if isinstance(st, ast.Assign) and len(st.targets) == 1 and isinstance(st.targets[0], ast.Subscript):
             t = st.targets[0]
-            if isinstance(t.value, ast.Attribute) and isinstance(t.value.value, ast.Name) and t.value.value.id == rrv and isinstance(t.slice, ast.Name) and t.slice.id == rparam and "__code__" in ast.dump(st.value):
-                code_attrs.append(t.value.attr)
+            if isinstance(t.value, ast.Attribute) and isinstance(t.value.value, ast.Name) and t.value.value.id == rrv and isinstance(t.slice, ast.Name) and t.slice.id == rparam:
+                # the value mentions `__code__` itself, or is a local that some statement fills from `__code__`
+                v = st.value
+                direct = "__code__" in ast.dump(v)
+                via = isinstance(v, ast.Name) and any("__code__" in ast.dump(s2) and any(isinstance(x, ast.Name) and x.id == v.id for x in ast.walk(s2)) for s2 in ast.walk(ranker.node) if isinstance(s2, ast.stmt) and not isinstance(s2, (ast.FunctionDef, ast.For, ast.While, ast.If, ast.With, ast.Try)))
+                keyed[t.value.attr] = keyed.get(t.value.attr, False) or direct or via
+    code_attrs = [a for a, c in keyed.items() if c] or (list(keyed) if len(keyed) == 1 else [])
     if len(code_attrs) != 1:
         raise AnalysisError(f"{ranker.key}: the record of the candidates' code objects was not found")
     n_rankings = []
@@ -119,6 +124,14 @@ def session(ctx, scenario):
     methods = {n: m for n, m in raw.items() if n not in (ranker.name, w.name)}
     funcs = {n: f.node for n, f in miss.module.funcs.items() if f.parent is None and f.cls is None}
     genv = {"CodeType": Code, "MISSING": "<MISSING>"}
+    # record-like classes of the module (NamedTuple / dataclass carriers a refactoring may introduce)
+    import collections
+
+    for c in miss.module.classes.values():
+        fields = [st.target.id for st in c.node.body if isinstance(st, ast.AnnAssign) and isinstance(st.target, ast.Name)]
+        is_record = any(b in ("NamedTuple", "typing.NamedTuple") for b in c.base_names) or any("dataclass" in (ast.unparse(d)) for d in c.node.decorator_list)
+        if fields and is_record and not c.methods.get("__init__"):
+            genv[c.name] = collections.namedtuple(c.name, fields)
     # the constructor's attributes (whatever tables this version keeps), then the stubs
     init = raw.get("__init__")
     if init is not None:
